@@ -3,6 +3,7 @@ package main
 // CP — patterns: width of the automaton word, token-wise reverse complement (C, via clang); spans of the re-alignment (Go) (C10).
 
 import (
+	"encoding/json"
 	"fmt"
 	"go/ast"
 	"go/token"
@@ -36,8 +37,8 @@ func cIntValue(n *cnode) (int64, bool) {
 		return 0, false
 	}
 	switch n.Kind {
-	case "IntegerLiteral":
-		v, err := strconv.ParseInt(n.Value, 0, 64)
+	case "IntegerLiteral", "CharacterLiteral":
+		v, err := strconv.ParseInt(string(n.Value), 0, 64)
 		return v, err == nil
 	case "BinaryOperator":
 		if len(n.Inner) == 2 {
@@ -123,6 +124,47 @@ func runCP(c *Ctx, s *Sink) {
 		o.Pos = pos
 		_ = allocLine
 	}
+	// (1bis) what is not a letter is not a base
+	key = "pkg/obiapat/obiapat.c:EncodeSequence:non-letters-match-nothing"
+	if fn, err := clangFunc(dir, "obiapat.c", "EncodeSequence"); err != nil {
+		s.Undecided(nil, key, 0, err.Error())
+	} else {
+		// letters without any IUPAC meaning: their code is in no pattern position
+		noBase := map[int64]bool{4: true, 5: true, 8: true, 9: true, 11: true, 14: true, 15: true, 16: true, 25: true}
+		ncond, badLine, isBad := 0, 0, false
+		var badVal int64
+		fn.walk(func(n *cnode, _ []*cnode) {
+			if n.Kind != "ConditionalOperator" || len(n.Inner) != 3 {
+				return
+			}
+			ncond++
+			v, ok := cIntValue(n.Inner[2])
+			if !ok || !noBase[v] {
+				badLine, badVal, isBad = n.Range.Begin.Line, v, true
+			}
+		})
+		var o *Ob
+		switch {
+		case ncond == 0:
+			o = s.add(Undecided, nil, key, 0, "no conditional encoding of the symbols in EncodeSequence")
+		case isBad:
+			o = s.add(Violation, nil, key, 0, fmt.Sprintf("a byte of the template that is not a lower-case letter is encoded %d, the code of the letter '%c': the symbols - . [ ] that the FASTA and FASTQ readers accept are searched as that base — with -e 0 the site -cgtg-ctg-tcg-tgc-tg is reported as an exact match of ACGTGACTGATCGATGCATG (forward_error 0), and the reverse complement of the same record gives no amplicon", badVal, rune('a'+badVal)))
+		default:
+			o = s.add(Pass, nil, key, 0, fmt.Sprintf("%d conditional encodings: a non-letter gets the code of a letter that no IUPAC symbol contains", ncond))
+		}
+		line := fn.Range.Begin.Line
+		if badLine != 0 {
+			line = badLine
+		}
+		if line == 0 {
+			var loc struct {
+				Line int `json:"line"`
+			}
+			_ = json.Unmarshal(fn.Loc, &loc)
+			line = loc.Line
+		}
+		o.Pos = fmt.Sprintf("pkg/obiapat/obiapat.c:%d", line)
+	}
 	// (2)
 	key = "pkg/obiapat/obiapat.c:no-characterwise-pattern-reversal"
 	bad := ""
@@ -166,7 +208,7 @@ func runCP(c *Ctx, s *Sink) {
 				return true
 			}
 			call, ok := ast.Unparen(as.Rhs[0]).(*ast.CallExpr)
-			if !ok || !strings.HasSuffix(fullName(callee(info, call)), "/pkg/obialign.LocatePattern") {
+			if !ok || !isLocateCall(info, call) {
 				return true
 			}
 			n++
@@ -254,9 +296,12 @@ func runCP(c *Ctx, s *Sink) {
 			s.Pass(nil, k, pos, "hits lying outside the sequence are only rejected in mismatch-only mode")
 		}
 	}
-	if fd, pp := c.FindFunc("pkg/obialign", "LocatePattern"); fd != nil {
+	c.EachFunc([]string{"pkg/obialign"}, func(pp *packages.Package, fd *ast.FuncDecl) {
+		if !strings.HasPrefix(fd.Name.Name, "LocatePattern") {
+			return
+		}
 		info := pp.TypesInfo
-		k := "pkg/obialign.LocatePattern:no-relative-length-precondition"
+		k := "pkg/obialign." + fd.Name.Name + ":no-relative-length-precondition"
 		bad := false
 		for _, st := range fd.Body.List {
 			ifs, ok := st.(*ast.IfStmt)
@@ -291,7 +336,7 @@ func runCP(c *Ctx, s *Sink) {
 		} else {
 			s.Pass(nil, k, fd.Pos(), "no abort on the relative lengths of pattern and sequence")
 		}
-	}
+	})
 	if fd, pp := c.FindFunc("pkg/obiapat", "(ApatPattern).FindAllIndex"); fd != nil {
 		info := pp.TypesInfo
 		k := "pkg/obiapat.(ApatPattern).FindAllIndex:keepalive"
@@ -435,4 +480,25 @@ func runKA(c *Ctx, s *Sink) {
 			}
 		}
 	})
+}
+
+// isLocateCall: a call of one of the locating functions of pkg/obialign (LocatePattern, LocatePatternFunc, …).
+func isLocateCall(info *types.Info, call *ast.CallExpr) bool {
+	f := callee(info, call)
+	return f != nil && f.Pkg() != nil && rel(f.Pkg().Path()) == "pkg/obialign" && strings.HasPrefix(f.Name(), "LocatePattern")
+}
+
+// locateFragment: the sequence argument of a locating call — its last argument of type []byte.
+func locateFragment(info *types.Info, call *ast.CallExpr) ast.Expr {
+	var out ast.Expr
+	for _, a := range call.Args {
+		if t := info.TypeOf(a); t != nil {
+			if sl, ok := t.Underlying().(*types.Slice); ok {
+				if b, ok := sl.Elem().Underlying().(*types.Basic); ok && b.Kind() == types.Byte {
+					out = a
+				}
+			}
+		}
+	}
+	return out
 }
